@@ -77,6 +77,18 @@ class Obj:
         return f"{self.cls}({', '.join(f'{k}={v!r}' for k, v in self.fields.items())})"
 
 
+class ObjDict(dict, Obj):
+    """an instance of a repository class that subclasses dict (a table with attributes, possibly with a __missing__ hook)"""
+    def __init__(self, cls: str, fields: dict, full: Optional[str] = None):
+        dict.__init__(self)
+        Obj.__init__(self, cls, fields, full)
+
+    def __repr__(self):
+        return f"{self.cls}{dict.__repr__(self)}"
+
+    __hash__ = None
+
+
 BUILTIN_TYPES = {n: TypeV("builtin", n) for n in ("int", "float", "bool", "str", "list", "tuple", "dict", "set", "object")}
 TYPING_UNION = Sym("typing.Union")
 TYPING_ANNOTATED = Sym("typing.Annotated")
@@ -554,6 +566,51 @@ class Interp:
             self.block(st.finalbody, env, depth)
         elif isinstance(st, (ast.FunctionDef, ast.AsyncFunctionDef)):
             env[st.name] = LocalFn(st, env, self.fn_stack[-1], self._defaults(st, env, depth))
+        elif isinstance(st, ast.Delete):
+            for t in st.targets:
+                if isinstance(t, ast.Name):
+                    env.pop(t.id, None)
+                    continue
+                if isinstance(t, ast.Subscript):
+                    base = self.ev(t.value, env, depth)
+                    if isinstance(base, list) and isinstance(t.slice, ast.Slice):
+                        lo_ = self.ev(t.slice.lower, env, depth) if t.slice.lower is not None else None
+                        hi_ = self.ev(t.slice.upper, env, depth) if t.slice.upper is not None else None
+                        if t.slice.step is None and all(x is None or (isinstance(x, int) and not isinstance(x, bool)) for x in (lo_, hi_)):
+                            del base[lo_:hi_]
+                            self.trace.append(Effect("store", (_path(t.value) or "?") + "[]", (UNKNOWN, UNKNOWN), node=st, fn=self.fn_stack[-1], recv=base))
+                            continue
+                    elif isinstance(base, list):
+                        k_ = self.ev(t.slice, env, depth)
+                        if isinstance(k_, int) and not isinstance(k_, bool):
+                            if -len(base) <= k_ < len(base):
+                                del base[k_]
+                                self.trace.append(Effect("store", (_path(t.value) or "?") + "[]", (k_, UNKNOWN), node=st, fn=self.fn_stack[-1], recv=base))
+                                continue
+                            self.throw("IndexError: list assignment index out of range", st)
+                    elif isinstance(base, dict):
+                        k_ = self.ev(t.slice, env, depth)
+                        if k_ is not UNKNOWN:
+                            hk_ = self._hashable(k_)
+                            if hk_ in base:
+                                del base[hk_]
+                                self.trace.append(Effect("store", (_path(t.value) or "?") + "[]", (k_, UNKNOWN), node=st, fn=self.fn_stack[-1], recv=base))
+                                continue
+                            self.throw("KeyError: " + repr(k_)[:30], st)
+                    if isinstance(base, (list, dict, set)):
+                        self.undecided.append("a 'del' on a container the model holds is not followed: its contents are not known from here")
+                    else:
+                        self.trace.append(Effect("store", (_path(t.value) or "?") + "[]", (UNKNOWN, UNKNOWN), node=st, fn=self.fn_stack[-1]))
+                    continue
+                if isinstance(t, ast.Attribute):
+                    o_ = self.ev(t.value, env, depth)
+                    if isinstance(o_, Obj):
+                        o_.fields.pop(t.attr, None)
+                    else:
+                        pth_ = _path(t)
+                        if pth_:
+                            env.pop(pth_, None)
+                    self.trace.append(Effect("store", (_path(t) or "?"), (UNKNOWN,), node=st, fn=self.fn_stack[-1]))
         # imports, pass, global: no effect
 
     def assign(self, t: ast.AST, val: Any, env: dict, node: ast.AST) -> None:
@@ -653,6 +710,29 @@ class Interp:
                 return BoundOp(e.attr, base)
             if isinstance(base, Obj) and e.attr == "__dict__":
                 return base.fields          # the instance dictionary itself: updates through it are updates of the object
+            if isinstance(base, Obj) and e.attr not in base.fields and isinstance(e.ctx, ast.Load) and depth < self.max_depth:
+                # a property / cached_property of the object's class: reading it runs the getter on the object (a cached one is kept on the object)
+                ci_ = self.prog.classes.get(base.full) if base.full else None
+                pm_ = self.prog.lookup_method(ci_, e.attr) if ci_ is not None else None
+                if pm_ is not None and isinstance(pm_.node, ast.FunctionDef) and len(pm_.params) == 1 and pm_ not in self.fn_stack[-3:]:
+                    from .frontend import decorators as _decos4
+                    kinds_ = {d_.split(".")[-1] for d_ in _decos4(pm_.node)}
+                    if kinds_ & {"property", "cached_property"}:
+                        self.fn_stack.append(pm_)
+                        saved_cls_ = self.cls
+                        self.cls = ci_
+                        try:
+                            cenv4_ = {"self": base}
+                            for k_, x_ in env.items():
+                                if "." in k_ and not k_.startswith("self.") and isinstance(env.get(k_.split(".")[0]), Sym) is False:
+                                    cenv4_[k_] = x_          # what the model knows about symbolic objects by path (grammar.recursive_prods)
+                            v_ = self.call_body(pm_, cenv4_, depth + 1)
+                        finally:
+                            self.fn_stack.pop()
+                            self.cls = saved_cls_
+                        if "cached_property" in kinds_ and v_ is not UNKNOWN:
+                            base.fields[e.attr] = v_
+                        return v_
             if isinstance(base, Obj):
                 if e.attr not in base.fields and isinstance(e.ctx, ast.Load):
                     # a class-level default (expanding: bool = True) is what an instance without its own value shows
@@ -844,6 +924,15 @@ class Interp:
                     return SVal(a.sign * (1 if b > 0 else -1), a.tag)
             if _is_num(l) and _is_num(r):
                 return l * r
+            for a, b in ((l, r), (r, l)):
+                if isinstance(a, list) and not isinstance(a, Arr) and isinstance(b, int) and not isinstance(b, bool):
+                    return [x for _ in range(max(b, 0)) for x in a]    # sequence repetition (the same element objects, as in Python)
+                if isinstance(a, str) and isinstance(b, int) and not isinstance(b, bool):
+                    return a * b
+                if isinstance(a, Arr) and _is_num(b) and all(_is_num(x) for x in a):
+                    return Arr([x * b for x in a])
+                if isinstance(a, list) and b is UNKNOWN:
+                    self.undecided.append("a sequence is repeated an unknown number of times: its length is not followed from here")
             return UNKNOWN
         if isinstance(e, ast.BinOp) and isinstance(e.op, (ast.BitOr, ast.BitAnd, ast.BitXor, ast.Sub)) \
                 and isinstance(self.ev(e.left, env, depth), set):
@@ -892,6 +981,18 @@ class Interp:
                 if k_ not in base:
                     base[k_] = base.factory()
                 return base[k_]
+            if isinstance(base, ObjDict) and idx is not UNKNOWN and self._hashable(idx) not in base and depth < self.max_depth:
+                ci_ = self.prog.classes.get(base.full) if base.full else None
+                ms_ = self.prog.lookup_method(ci_, "__missing__") if ci_ is not None else None
+                if ms_ is not None and isinstance(ms_.node, ast.FunctionDef) and len(ms_.params) == 2 and ms_ not in self.fn_stack[-3:]:
+                    self.fn_stack.append(ms_)
+                    saved_cls_ = self.cls
+                    self.cls = ci_
+                    try:
+                        return self.call_body(ms_, {ms_.params[0]: base, ms_.params[1]: idx}, depth + 1)     # dict.__getitem__ falls back to __missing__
+                    finally:
+                        self.fn_stack.pop()
+                        self.cls = saved_cls_
             if isinstance(base, dict) and idx is not UNKNOWN:
                 if self.strict_keys and self._hashable(idx) not in base:
                     self.throw(f"KeyError: {self._hashable(idx)}", e)
@@ -935,6 +1036,8 @@ class Interp:
                 it = list(it.keys())
             if isinstance(it, set):
                 it = sorted(it, key=repr)
+            if not isinstance(it, list) and isinstance(g.iter, ast.Call) and call_name(g.iter) == "range" and not self.strict_iter and not g.ifs:
+                it = [Sym(f"elem:{norm(g.iter)[:30]}")]      # a count the model does not know: one representative iteration, as in a for loop
             if not isinstance(it, list):
                 ok[0] = False
                 return
@@ -960,6 +1063,14 @@ class Interp:
             else:
                 args.append(self.ev(a, env, depth))
         kwargs = {k.arg: self.ev(k.value, env, depth) for k in c.keywords if k.arg}
+        for k in c.keywords:
+            if k.arg is None:
+                m_ = self.ev(k.value, env, depth)         # f(**mapping)
+                if isinstance(m_, dict) and all(isinstance(x_, str) for x_ in m_):
+                    for x_, v_ in m_.items():
+                        kwargs.setdefault(x_, v_)
+                else:
+                    self.undecided.append("keyword arguments unpacked from a mapping the model does not hold: the call's arguments are not followed")
         if self.call_model is not None:
             r = self.call_model(self, c, env, args, kwargs)
             if r is not None:
@@ -967,6 +1078,26 @@ class Interp:
         if nm in self.record_calls:
             recv = self.ev(c.func.value, env, depth) if isinstance(c.func, ast.Attribute) else None
             self.trace.append(Effect("call", nm, tuple(args), kwargs, node=c, fn=self.fn_stack[-1], recv=recv))
+        if isinstance(c.func, (ast.Subscript, ast.IfExp)) and not c.keywords and not any(isinstance(a, ast.Starred) for a in c.args):
+            # the callee is looked up in a table / chosen by a condition (TABLE[flag](x), (min if flag else max)(xs)): evaluate it, then call the value
+            fv_ = self.ev(c.func, env, depth)
+            if isinstance(fv_, Sym) and fv_.tag.startswith(("builtin:", "operator.")):
+                tmp_ = "__callee%d" % len(env)
+                env[tmp_] = fv_
+                for i_, a_ in enumerate(args):
+                    env[f"{tmp_}_a{i_}"] = a_
+                fake = ast.copy_location(ast.Call(func=ast.Name(id=tmp_, ctx=ast.Load()),
+                                                  args=[ast.Name(id=f"{tmp_}_a{i_}", ctx=ast.Load()) for i_ in range(len(args))], keywords=[]), c)
+                try:
+                    return self.call(ast.fix_missing_locations(fake), env, depth)
+                finally:
+                    env.pop(tmp_, None)
+                    for i_ in range(len(args)):
+                        env.pop(f"{tmp_}_a{i_}", None)
+            if isinstance(fv_, (LocalFn, BoundOp)):
+                return self.apply(fv_, args, env, depth)
+            if isinstance(fv_, Sym) and fv_.tag.count(".") == 1 and fv_.tag.split(".")[0] in env and not any(ch in fv_.tag for ch in "([ :~"):
+                return self.apply(fv_, args, env, depth)       # a bound method kept in a table: table[name](x)
         # a local name bound to a builtin function / an operator-module function
         alias = env.get(c.func.id) if isinstance(c.func, ast.Name) else None
         if isinstance(alias, Sym) and alias.tag.startswith("builtin:"):
@@ -981,6 +1112,8 @@ class Interp:
             g_ = self._module_global(c.func.id, depth)
             if isinstance(g_, Sym) and g_.tag.startswith("operator."):
                 alias = g_
+            elif isinstance(g_, BoundOp) and not kwargs:
+                return self.apply(g_, args, env, depth)       # NAME = attrgetter("x") at module level; NAME(obj)
         if isinstance(alias, Sym) and alias.tag.startswith("operator.") and alias.tag[9:] in _ARITH_OPS and len(args) == _ARITH_OPS[alias.tag[9:]][1]:
             return self.apply(alias, args, env, depth)
         if isinstance(alias, Sym) and alias.tag.startswith("operator."):
@@ -1116,6 +1249,20 @@ class Interp:
                 return [self.apply(args[0], [x], env, depth) for x in (args[1] if isinstance(args[1], list) else sorted(args[1], key=repr))]
             if nm == "filter" and len(args) == 2 and isinstance(args[1], list) and nm not in env and args[0] is not None:
                 return [x for x in args[1] if self.truthy(self.apply(args[0], [x], env, depth))]
+            if nm == "type" and len(args) == 1 and nm not in env and not kwargs:
+                v_ = args[0]
+                for py_, name_ in ((bool, "bool"), (int, "int"), (float, "float"), (str, "str"), (dict, "dict"), (set, "set")):
+                    if type(v_) is py_:
+                        return BUILTIN_TYPES[name_]
+                if type(v_) is list:
+                    return BUILTIN_TYPES["list"]
+                if isinstance(v_, SVal):
+                    return BUILTIN_TYPES["float"]       # a symbolic number of the model: what a fitness function returns
+            if nm == "id" and len(args) == 1 and nm not in env and isinstance(args[0], (Sym, Obj)):
+                # the identity of a model object: a token that is equal exactly for the same object
+                return Sym("id:" + args[0].tag) if isinstance(args[0], Sym) else Sym(f"id:obj{id(args[0])}")
+            if nm == "vars" and len(args) == 1 and isinstance(args[0], Obj) and nm not in env:
+                return args[0].fields          # vars(obj) is obj.__dict__
             if nm == "reversed" and len(args) == 1 and isinstance(args[0], list):
                 return list(reversed(args[0]))
             if nm == "sorted" and len(args) == 1 and isinstance(args[0], list) and kwargs.get("key") is None:
@@ -1232,8 +1379,12 @@ class Interp:
                 if isinstance(args[0], DDict):
                     d_.factory = args[0].factory
                 return d_
-            if nm == "set" and len(args) == 1 and isinstance(args[0], list):
+            if nm in ("set", "frozenset") and len(args) == 1 and isinstance(args[0], list) and nm not in env:
                 return set(self._hashable(x) for x in args[0])
+            if nm in ("set", "frozenset") and len(args) == 1 and isinstance(args[0], (set, dict)) and nm not in env:
+                return set(args[0])            # a copy (the model does not distinguish a frozen set: it is never mutated in place)
+            if nm == "frozenset" and not args and nm not in env:
+                return set()
             if nm == "isinstance" and len(c.args) == 2:
                 return _isinstance(args[0], c.args[1])
             if nm == "hasattr" and len(args) == 2 and isinstance(args[1], str):
@@ -1242,6 +1393,28 @@ class Interp:
                 if isinstance(args[0], Obj):
                     return args[1] in args[0].fields
                 return UNKNOWN
+            if nm == "getattr" and 2 <= len(args) <= 3 and isinstance(args[1], str) and nm not in env:
+                o_, a_ = args[0], args[1]
+                if isinstance(o_, TypeV):
+                    v_ = type_attr(o_, a_)
+                    if v_ is None:
+                        if len(args) == 3:
+                            return args[2]
+                        self.throw(f"AttributeError: type has no attribute '{a_}'", c)
+                    return v_
+                if isinstance(o_, Obj):
+                    if a_ in o_.fields:
+                        return o_.fields[a_]
+                    fake_ = ast.copy_location(ast.Attribute(value=c.args[0], attr=a_, ctx=ast.Load()), c)
+                    v_ = self.ev(ast.fix_missing_locations(fake_), env, depth)
+                    if v_ is UNKNOWN and len(args) == 3 and not self.strict_attrs:
+                        return UNKNOWN
+                    return v_
+                if isinstance(o_, Sym) and (o_.tag, a_) in self.heap:
+                    return self.heap[(o_.tag, a_)]
+            if nm == "object" and not args and not kwargs and nm not in env:
+                self._sentinels = getattr(self, "_sentinels", 0) + 1
+                return Sym(f"sentinel:{getattr(c, 'lineno', 0)}:{getattr(c, 'col_offset', 0)}")      # object(): a unique marker (one per creation site)
             if nm == "get_origin" and len(args) == 1 and isinstance(args[0], TypeV):
                 t_ = args[0]
                 return {"list": BUILTIN_TYPES["list"], "tuple": BUILTIN_TYPES["tuple"], "union": TYPING_UNION,
@@ -1297,6 +1470,31 @@ class Interp:
                     if ci.name in self.record_calls:
                         pass
                     return o
+                if ci is not None and depth < self.max_depth and any(isinstance(b_, ast.Name) and b_.id == "dict" for b_ in ci.node.bases) \
+                        and len(ci.node.bases) == 1:
+                    # a table class (class T(dict)): a dict with the attributes its constructor sets
+                    od_ = ObjDict(ci.name, {}, ci.fullname)
+                    init_ = ci.methods.get("__init__")
+                    if init_ is not None:
+                        a_ = init_.node.args
+                        names_ = [x.arg for x in a_.posonlyargs + a_.args]
+                        cenv_ = {names_[0]: od_}
+                        for p_, d_ in zip(names_[len(names_) - len(a_.defaults):], a_.defaults):
+                            cenv_[p_] = self.ev(d_, {}, depth)
+                        for p_, v_ in zip(names_[1:], args):
+                            cenv_[p_] = v_
+                        cenv_.update(kwargs)
+                        self.fn_stack.append(init_)
+                        saved_cls_ = self.cls
+                        self.cls = ci
+                        try:
+                            self.call_body(init_, cenv_, depth + 1)
+                        finally:
+                            self.fn_stack.pop()
+                            self.cls = saved_cls_
+                    elif len(args) == 1 and isinstance(args[0], dict):
+                        od_.update(args[0])
+                    return od_
                 # a plain helper class of the repository with its own __init__: an object whose fields the constructor sets
                 if ci is not None and self.instantiate_classes and depth < self.max_depth and "__init__" in ci.methods \
                         and not any(b.name.endswith(("Exception", "Error")) for b in self.prog.mro(ci)) \
@@ -1312,6 +1510,7 @@ class Interp:
                         cenv[p_] = v
                     for k, v in kwargs.items():
                         cenv[k] = v
+                    self._bind_star(target.node, cenv, kwargs)
                     self.fn_stack.append(target)
                     try:
                         self.call_body(target, cenv, depth + 1)
@@ -1343,7 +1542,8 @@ class Interp:
             if isinstance(recv_v, Obj):
                 cands = [ci for ci in self.prog.classes.values() if (ci.fullname == recv_v.full if recv_v.full else ci.name == recv_v.cls)]
                 target = self.prog.lookup_method(cands[0], nm) if len(cands) == 1 else None
-                if target is not None and isinstance(target.node, (ast.FunctionDef, ast.AsyncFunctionDef)) and target not in self.fn_stack[-3:]:
+                if target is not None and isinstance(target.node, (ast.FunctionDef, ast.AsyncFunctionDef)) \
+                        and (target not in self.fn_stack[-3:] or self.allow_recursion):
                     a = target.node.args
                     names = [x.arg for x in a.posonlyargs + a.args]
                     from .frontend import decorators as _decos2
@@ -1355,6 +1555,7 @@ class Interp:
                         cenv[p_] = v
                     for k, v in kwargs.items():
                         cenv[k] = v
+                    self._bind_star(target.node, cenv, kwargs)
                     self.fn_stack.append(target)
                     saved_cls = self.cls
                     self.cls = cands[0]        # self.m() / super().m() inside the method resolve through the object's class
@@ -1380,6 +1581,7 @@ class Interp:
                         cenv[p_] = v
                     for k, v in kwargs.items():
                         cenv[k] = v
+                    self._bind_star(target.node, cenv, kwargs)
                     return self.call_body(target, cenv, depth + 1)
                 finally:
                     self.fn_stack.pop()
@@ -1419,6 +1621,7 @@ class Interp:
                         cenv[p_] = v
                     for k, v in kwargs.items():
                         cenv[k] = v
+                    self._bind_star(target.node, cenv, kwargs)
                     self.fn_stack.append(target)
                     try:
                         rv = self.call_body(target, cenv, depth + 1)
@@ -1683,6 +1886,7 @@ def _install():
             cenv[p_] = v
         for k, v in kwargs.items():
             cenv[k] = v
+        self._bind_star(node, cenv, kwargs)
         gen = _is_generator(node)
         start = len(self.trace)
         rv = None
@@ -1741,7 +1945,9 @@ def _install():
         for st in mod.tree.body:
             tgt = st.targets[0] if isinstance(st, ast.Assign) and len(st.targets) == 1 else st.target if isinstance(st, ast.AnnAssign) else None
             if isinstance(tgt, ast.Name) and tgt.id == name and getattr(st, "value", None) is not None \
-                    and isinstance(st.value, (ast.Dict, ast.List, ast.Set, ast.Tuple, ast.Constant)):
+                    and (isinstance(st.value, (ast.Dict, ast.List, ast.Set, ast.Tuple, ast.Constant))
+                         or (isinstance(st.value, ast.Call) and call_name(st.value) in ("attrgetter", "itemgetter", "methodcaller", "frozenset", "tuple"))
+                         or (isinstance(st.value, ast.Call) and isinstance(st.value.func, ast.Name) and st.value.func.id == "object" and not st.value.args)):
                 val = self.ev(st.value, {}, depth + 1)
                 break
             if isinstance(st, (ast.FunctionDef, ast.AsyncFunctionDef)) and st.name == name:
@@ -1759,6 +1965,18 @@ def _install():
                         tgt = st.targets[0] if isinstance(st, ast.Assign) and len(st.targets) == 1 else st.target if isinstance(st, ast.AnnAssign) else None
                         if isinstance(tgt, ast.Name) and tgt.id == cname_ and isinstance(getattr(st, "value", None), ast.Constant):
                             val = st.value.value
+                            break
+                        if isinstance(tgt, ast.Name) and tgt.id == cname_ and isinstance(getattr(st, "value", None), ast.Call) \
+                                and call_name(st.value) in ("attrgetter", "itemgetter", "methodcaller"):
+                            fi0_ = next(iter(src_.functions.values()), None)      # evaluated in the defining module (its imports resolve 'attrgetter')
+                            if fi0_ is not None:
+                                self.fn_stack.append(fi0_)
+                                try:
+                                    val = self.ev(st.value, {}, depth + 1)
+                                finally:
+                                    self.fn_stack.pop()
+                                if val is UNKNOWN:
+                                    val = None
                             break
         if val is None:
             # a module-level function of the repository imported by name
@@ -1798,6 +2016,18 @@ def _install():
                     return None if v_ is UNKNOWN else v_
         return None
 
+    def _bind_star(self, node, cenv: dict, kwargs: dict) -> None:
+        """def f(..., **extra): the keyword arguments that name no parameter are collected in the mapping 'extra'"""
+        a_ = getattr(node, "args", None)
+        if a_ is None or a_.kwarg is None:
+            return
+        named_ = {x.arg for x in a_.posonlyargs + a_.args + a_.kwonlyargs}
+        extra_ = {k: v for k, v in kwargs.items() if k not in named_}
+        for k in extra_:
+            cenv.pop(k, None)
+        cenv[a_.kwarg.arg] = extra_
+
+    Interp._bind_star = _bind_star
     Interp._class_const = _class_const
     Interp._module_global = _module_global
     Interp.call_local = call_local
@@ -1856,6 +2086,11 @@ def _copy_val(v: Any) -> Any:
         d = DDict((k, _copy_val(x)) for k, x in v.items())
         d.factory = v.factory
         return d
+    if isinstance(v, ObjDict):
+        o = ObjDict(v.cls, {k: _copy_val(x) for k, x in v.fields.items()}, v.full)
+        for k, x in v.items():
+            o[k] = _copy_val(x)
+        return o
     if isinstance(v, dict):
         return {k: _copy_val(x) for k, x in v.items()}
     if isinstance(v, Obj):
